@@ -1,5 +1,257 @@
-import Bkl
+/-
+  C18 — "With a root directory set, nothing outside it is ever read".
+
+  The property is about file *contents*: every `open` goes through the `os.Root` walk
+  (`FS.rootWalk` / `FS.rootOpen`).  The existence probes `findFile` / `globFiles` /
+  `evalSymlinks` deliberately see the whole file system, exactly like the Go code's
+  os.Stat / filepath.Glob / filepath.EvalSymlinks; nothing below claims they are confined.
+-/
+import BklProofs.Lemmas.Files
 namespace Bkl
-/-- placeholder until the property theorems land -/
-theorem C18_placeholder : validate (.int 1) = .ok () := by simp [validate]; rfl
+
+/-- The `os.Root` walk never leaves the root. -/
+theorem C18_walk_stays_inside (fs : FS) (root : Comps) (fuel : Nat) (cur : Comps)
+    (todo : List String) (real : Comps)
+    (h : fs.rootWalk root fuel cur todo = .ok real) (hp : root <+: cur) : root <+: real :=
+  rootWalk_inside fs root fuel cur todo real h hp
+
+/-- non-vacuity: a walk through a relative link inside /w/r -/
+example : exFS.rootWalk ["w", "r"] 10 ["w", "r"] ["sub", "..", "l.yaml"] = .ok ["w", "r", "a.yaml"] ∧
+    ["w", "r"] <+: ["w", "r"] := by
+  refine ⟨?_, List.prefix_refl _⟩
+  rw [rootWalk_step_plain (n := .dir) (by decide) (by decide) rfl,
+    rootWalk_step_dotdot (by decide),
+    rootWalk_step_link (t := "a.yaml") (ts := ["a.yaml"]) (by decide) (by decide)
+      (by simp [isAbsPath]) (splitPath_lit _ _ (by decide))]
+  decide
+
+/-- Every content read is of a path inside the root. -/
+theorem C18_reads_inside (fs : FS) (root : Comps) (rel : List String) (docs : List Val)
+    (h : fs.rootOpen root rel = .ok docs) :
+    ∃ real, root <+: real ∧ fs.lstat real = some (.file (.ok docs)) := by
+  rw [rootOpen_eq] at h
+  cases hw : fs.rootWalk root linkFuel root rel with
+  | error e => rw [hw] at h; cases h
+  | ok real =>
+    rw [hw] at h
+    dsimp only at h
+    refine ⟨real, rootWalk_inside fs root _ _ _ _ hw (List.prefix_refl _), ?_⟩
+    cases hl : fs.lstat real with
+    | none => rw [hl] at h; cases h
+    | some n =>
+      rw [hl] at h
+      cases n with
+      | file d => simp only at h; rw [h]
+      | link t => cases h
+      | dir => cases h
+
+/-- The same for whatever `rootOpen` returns (a decoding error is also the content of a file
+    inside the root); the only other outcome is the walk's own refusal. -/
+theorem C18_reads_inside_any (fs : FS) (root : Comps) (rel : List String) (r : R (List Val))
+    (h : fs.rootOpen root rel = r) :
+    r = .error .other ∨ ∃ real, root <+: real ∧ fs.lstat real = some (.file r) := by
+  rw [rootOpen_eq] at h
+  cases hw : fs.rootWalk root linkFuel root rel with
+  | error e =>
+    rw [hw] at h
+    -- the walk only ever fails with `other`
+    have : ∀ (fuel : Nat) (cur : Comps) (todo : List String) (e : Err),
+        fs.rootWalk root fuel cur todo = .error e → e = .other := by
+      intro fuel
+      induction fuel with
+      | zero => intro cur todo e h; rw [rootWalk_zero] at h; cases h; rfl
+      | succ n ih =>
+        intro cur todo e h
+        cases todo with
+        | nil => rw [rootWalk_nil] at h; cases h
+        | cons c rest =>
+          rw [rootWalk_cons] at h
+          split at h
+          · exact ih _ _ _ h
+          · split at h
+            · split at h
+              · cases h; rfl
+              · exact ih _ _ _ h
+            · split at h
+              · cases h; rfl
+              · split at h
+                · cases h; rfl
+                · exact ih _ _ _ h
+              · exact ih _ _ _ h
+    have he := this _ _ _ _ hw
+    subst he
+    exact .inl h.symm
+  | ok real =>
+    rw [hw] at h
+    dsimp only at h
+    have hin := rootWalk_inside fs root _ _ _ _ hw (List.prefix_refl _)
+    cases hl : fs.lstat real with
+    | none => rw [hl] at h; exact .inl h.symm
+    | some n =>
+      rw [hl] at h
+      cases n with
+      | file d => exact .inr ⟨real, hin, by rw [hl, ← h]⟩
+      | link t => exact .inl h.symm
+      | dir => exact .inl h.symm
+
+example : exFS.rootOpen ["w", "r"] ["l.yaml"] = .ok [.map [("x", .int 1)]] := by
+  rw [rootOpen_eq, show linkFuel = 4094 + 1 + 1 from rfl,
+    rootWalk_step_link (t := "a.yaml") (ts := ["a.yaml"]) (by decide) (by decide)
+      (by simp [isAbsPath]) (splitPath_lit _ _ (by decide))]
+  show (match exFS.rootWalk ["w", "r"] (4094 + 1) ["w", "r"] ("a.yaml" :: []) with
+    | Except.error e => Except.error e | .ok real => _) = _
+  rw [rootWalk_step_plain (n := .file (.ok [.map [("x", .int 1)]])) (by decide) (by decide) rfl,
+    rootWalk_nil]
+
+/-- `..` at the root is refused … -/
+theorem C18_dotdot_escape_refused (fs : FS) (root : Comps) (fuel : Nat) (rest : List String) :
+    fs.rootWalk root (fuel + 1) root (".." :: rest) = .error .other :=
+  rootWalk_dotdot_at_root fs root fuel rest
+
+/-- … also when it comes from a relative link that climbs out of the root -/
+example : exFS.rootOpen ["w", "r"] ["up.yaml"] = .error .other := by
+  rw [rootOpen_eq, show linkFuel = 4094 + 1 + 1 from rfl,
+    rootWalk_step_link (t := "../secret.yaml") (ts := ["..", "secret.yaml"]) (by decide)
+      (by decide) (by simp [isAbsPath]) (splitPath_lit _ _ (by decide))]
+  simp only [List.cons_append, List.nil_append]
+  rw [rootWalk_dotdot_at_root]
+
+/-- Stepping onto a symlink with an absolute target is an error. -/
+theorem C18_absolute_link_refused (fs : FS) (root cur : Comps) (fuel : Nat) (c t : String)
+    (rest : List String) (hc : plainComp c = true)
+    (hl : fs.lstat (cur ++ [c]) = some (.link t)) (ha : isAbsPath t = true) :
+    fs.rootWalk root (fuel + 1) cur (c :: rest) = .error .other := by
+  have hc' := (plainComp_iff c).1 hc
+  rw [rootWalk_cons, hl]
+  simp [hc'.1, hc'.2.1, hc'.2.2, ha]
+
+example : plainComp "abs.yaml" = true ∧
+    exFS.lstat (["w", "r"] ++ ["abs.yaml"]) = some (.link "/w/secret.yaml") ∧
+    isAbsPath "/w/secret.yaml" = true := by
+  refine ⟨by decide, by decide, by simp [isAbsPath]⟩
+
+/-- File contents obtained with a root set are independent of everything outside the root:
+    the walk, … -/
+theorem C18_independent_walk (root : Comps) (fs₁ fs₂ : FS) (h : agreeInside root fs₁ fs₂)
+    (fuel : Nat) (cur : Comps) (todo : List String) (hp : root <+: cur) :
+    fs₁.rootWalk root fuel cur todo = fs₂.rootWalk root fuel cur todo :=
+  rootWalk_congr fs₁ fs₂ root h fuel cur todo hp
+
+/-- … the open, … -/
+theorem C18_independent_open (root : Comps) (fs₁ fs₂ : FS) (h : agreeInside root fs₁ fs₂)
+    (rel : List String) : fs₁.rootOpen root rel = fs₂.rootOpen root rel := by
+  rw [rootOpen_eq, rootOpen_eq,
+    rootWalk_congr fs₁ fs₂ root h linkFuel root rel (List.prefix_refl _)]
+  cases hw : fs₂.rootWalk root linkFuel root rel with
+  | error e => rfl
+  | ok real =>
+    have hw1 : fs₁.rootWalk root linkFuel root rel = .ok real := by
+      rw [rootWalk_congr fs₁ fs₂ root h linkFuel root rel (List.prefix_refl _)]; exact hw
+    have hin := rootWalk_inside fs₁ root _ _ _ _ hw1 (List.prefix_refl _)
+    simp only [h real hin]
+
+/-- … and the loaded documents of a file. -/
+theorem C18_independent (fs₁ fs₂ : FS) (cfg : RootCfg) (h : agreeInside cfg.root fs₁ fs₂)
+    (p : Comps) (id : String) : loadFile fs₁ cfg p id = loadFile fs₂ cfg p id := by
+  rw [loadFile_eq, loadFile_eq, C18_independent_open cfg.root fs₁ fs₂ h]
+
+/-- non-vacuity: the two sample file systems agree inside /w/r and differ outside -/
+example : agreeInside ["w", "r"] exFS exFS' ∧ exFS.lstat ["w", "secret.yaml"] ≠ exFS'.lstat ["w", "secret.yaml"] := by
+  refine ⟨?_, by decide⟩
+  intro p hp
+  obtain ⟨t, rfl⟩ := hp
+  have hne : (["w", "r"] ++ t).isEmpty = false := rfl
+  simp only [FS.lstat, hne, exFS, exFS', Bool.false_eq_true, if_false]
+  simp [List.find?_cons]
+
+/-- `filepath.Rel` of a path outside the root starts with `..` … -/
+theorem C18_relTo_outside (root p : Comps) (h : ¬ root <+: p) (hr : root ≠ []) :
+    (relTo root p).head? = some ".." :=
+  relTo_strip_outside root p h hr
+
+example : ¬ (["w", "r"] <+: ["w", "secret.yaml"]) ∧ (["w", "r"] : Comps) ≠ [] := by decide
+
+/-- … so a path outside a (non-trivial) root is never opened, whatever the file system holds. -/
+theorem C18_outside_never_read (fs : FS) (cfg : RootCfg) (p : Comps) (id : String)
+    (h : ¬ cfg.root <+: p) (hr : cfg.root ≠ []) :
+    loadFile fs cfg p id = .error .other ∨ loadFile fs cfg p id = .error .unknownFormat := by
+  rw [loadFile_eq]
+  split
+  · left
+    have hh := relTo_strip_outside cfg.root p h hr
+    have : ∃ rest, relTo cfg.root p = ".." :: rest := by
+      change (relTo cfg.root p).head? = some ".." at hh
+      cases hrel : relTo cfg.root p with
+      | nil => rw [hrel] at hh; cases hh
+      | cons a rest =>
+        rw [hrel] at hh
+        simp only [List.head?_cons, Option.some.injEq] at hh
+        exact ⟨rest, by rw [hh]⟩
+    obtain ⟨rest, hrest⟩ := this
+    rw [rootOpen_eq, hrest]
+    have : fs.rootWalk cfg.root linkFuel cfg.root (".." :: rest) = .error .other :=
+      rootWalk_dotdot_at_root fs cfg.root 4095 rest
+    rw [this]
+  · right; rfl
+
+example : loadFile exFS ⟨["w", "r"], ["w", "r"]⟩ ["w", "secret.yaml"] "x" = .error .other := by
+  rcases C18_outside_never_read exFS ⟨["w", "r"], ["w", "r"]⟩ ["w", "secret.yaml"] "x"
+    (by decide) (by decide) with h | h
+  · exact h
+  · rw [loadFile_eq] at h
+    have : supportedExts.contains (extOf (baseOf ["w", "secret.yaml"])) = true := by
+      simp only [extOf, baseOf, splitOn_dot]; decide
+    rw [this] at h
+    simp only [if_true] at h
+    rw [rootOpen_eq] at h
+    have h2 : relTo ["w", "r"] ["w", "secret.yaml"] = ["..", "secret.yaml"] := by decide
+    have h3 : exFS.rootWalk ["w", "r"] linkFuel ["w", "r"] ["..", "secret.yaml"] = .error .other :=
+      rootWalk_dotdot_at_root exFS ["w", "r"] 4095 _
+    rw [h2, h3] at h
+    cases h
+
+/-- A nested SetRoot can only narrow the root. -/
+theorem C18_setRoot_nested (fs : FS) (cfg cfg' : RootCfg) (path : String)
+    (h : setRoot fs cfg path = .ok cfg') : cfg.root <+: cfg'.root := by
+  rw [setRoot_eq] at h
+  cases hd : fs.rootOpenDir cfg.root (relTo cfg.root (absPath cfg.cwd path)) with
+  | error e => rw [hd] at h; cases h
+  | ok real =>
+    rw [hd] at h
+    simp only [Except.ok.injEq] at h
+    subst h
+    show cfg.root <+: cleanComps (cfg.root ++ relTo cfg.root (absPath cfg.cwd path))
+    by_cases hr : cfg.root = []
+    · rw [hr]; exact List.nil_prefix
+    · by_cases hp : cfg.root <+: absPath cfg.cwd path
+      · obtain ⟨s, hs⟩ := hp
+        rw [← hs, relTo_append, hs, cleanComps_of_plain _ (absPath_allPlain _ _), ← hs]
+        exact List.prefix_append _ _
+      · exfalso
+        have hh : (relTo cfg.root (absPath cfg.cwd path)).head? = some ".." :=
+          relTo_strip_outside _ _ hp hr
+        rw [rootOpenDir_eq] at hd
+        cases hrel : relTo cfg.root (absPath cfg.cwd path) with
+        | nil => rw [hrel] at hh; cases hh
+        | cons a rest =>
+          rw [hrel] at hh hd
+          simp only [List.head?_cons, Option.some.injEq] at hh
+          subst hh
+          have : fs.rootWalk cfg.root linkFuel cfg.root (".." :: rest) = .error .other :=
+            rootWalk_dotdot_at_root fs cfg.root 4095 rest
+          rw [this] at hd
+          cases hd
+
+example : setRoot exFS ⟨["w"], ["w"]⟩ "r/sub" = .ok ⟨["w", "r", "sub"], ["w"]⟩ := by
+  rw [setRoot_eq, rootOpenDir_eq]
+  have h1 : absPath ["w"] "r/sub" = ["w", "r", "sub"] := by
+    have : isAbsPath "r/sub" = false := by simp [isAbsPath]
+    simp only [absPath, this, splitPath_lit "r/sub" ["r", "sub"] (by decide)]; decide
+  rw [h1]
+  have h2 : relTo ["w"] ["w", "r", "sub"] = ["r", "sub"] := by decide
+  rw [h2]
+  have h3 : exFS.rootWalk ["w"] linkFuel ["w"] ["r", "sub"] = .ok ["w", "r", "sub"] := by decide
+  simp only [h3]
+  rfl
+
 end Bkl
